@@ -86,6 +86,8 @@ func corpusValues() []cty.Value {
 		set(tup(str("a"), cty.NullVal(cty.Number)), tup(str("a"), num(0))),
 		set(str("a"), cty.UnknownVal(cty.String)),
 		set(cty.UnknownVal(cty.String), cty.UnknownVal(cty.String).RefineNotNull()), // members cannot be told apart: counted, skipped
+		set(cty.UnknownVal(cty.String), cty.UnknownVal(cty.String)), // whatever SetVal makes of two indistinguishable unknowns
+		lst(set(cty.UnknownVal(cty.Number), num(1)), set(num(1), num(2))),
 		set(cty.NullVal(cty.String), str("")),
 		set(negZero, num(1)),
 		set(cty.NumberFloatVal(0.12345678905), cty.MustParseNumberVal("0.123456789051")),
